@@ -142,7 +142,7 @@ class Interp:
         self.trace: List[str] = []
         self.builtins = {
             "len": PyFunc(self._len, "len", True), "range": PyFunc(range, "range"), "abs": PyFunc(self._abs, "abs", True),
-            "tuple": PyFunc(tuple, "tuple", True), "list": PyFunc(list, "list", True), "dict": PyFunc(dict, "dict"),
+            "tuple": PyFunc(tuple, "tuple", True), "list": PyFunc(list, "list", True), "dict": PyFunc(dict, "dict", True),
             "sorted": PyFunc(sorted, "sorted"), "min": PyFunc(min, "min"), "max": PyFunc(max, "max"),
             "sum": PyFunc(sum, "sum"), "int": ClassRef("int"), "float": ClassRef("float"), "str": ClassRef("str"),
             "bool": ClassRef("bool"), "complex": ClassRef("complex"),
@@ -177,7 +177,9 @@ class Interp:
             "re": Obj("module:re", {"match": PyFunc(lambda p, s, *a: re.match(p, s), "re.match"),
                                     "search": PyFunc(lambda p, s, *a: re.search(p, s), "re.search")}),
             "functools.reduce": PyFunc(self._reduce, "reduce", True),
-            "itertools.product": PyFunc(lambda *a, repeat=1: list(__import__("itertools").product(*a, repeat=repeat)), "product"),
+            "itertools.product": PyFunc(lambda *a, repeat=1: list(__import__("itertools").product(*[list(q) for q in a], repeat=repeat)), "product", True),
+            "itertools.chain": PyFunc(lambda *a: [y for q in a for y in q], "chain", True),
+            "itertools.combinations": PyFunc(lambda a, r: list(__import__("itertools").combinations(list(a), r)), "combinations", True),
             "string": Obj("module:string", {"ascii_lowercase": "abcdefghijklmnopqrstuvwxyz",
                                             "ascii_uppercase": "ABCDEFGHIJKLMNOPQRSTUVWXYZ"}),
         }
